@@ -189,7 +189,7 @@ class C14(Prop):
             "keepdims; reductions (mean sum var std median; axis by name, position, negative position or default; skipna= on "
             "data with NaNs); take_axis (labels, or positions with mode raise/clip/wrap), sort_axis, reindex_axis (missing "
             "labels, fill values, raise_error, method, values as array / list / Axis), interp_axis (axis by name or position), "
-            "reindex_like / interp_like (template Dataset / DimArray / Axes), arithmetic (+ - * / // ** and augmented "
+            "reindex_like / interp_like (template Dataset / DimArray / Axes), copy, interp_axis with left / right fills, arithmetic (+ - * / // ** and augmented "
             "assignment; dataset op dataset with equal, differing or partly common variables, dataset op scalar, unary minus), "
             "stack_ds and concatenate_ds of 2-3 datasets whose secondary axes differ, with and without align / sort / join, "
             "keys, list / tuple / dict containers; every result is compared variable by variable with the corresponding "
@@ -206,7 +206,7 @@ class C14(Prop):
                 "take_axis": d.Dataset.take_axis, "sort_axis": d.Dataset.sort_axis, "reindex_axis": d.Dataset.reindex_axis,
                 "interp_axis": d.Dataset.interp_axis, "_binary_op": d.Dataset._binary_op, "_unary_op": d.Dataset._unary_op,
                 "stack_ds": d.stack_ds, "concatenate_ds": d.concatenate_ds, "reindex_like": d.Dataset.reindex_like,
-                "interp_like": d.Dataset.interp_like}
+                "interp_like": d.Dataset.interp_like, "copy": d.Dataset.copy}
 
     # ------------------------------------------------------------ generation
     def gen(self, rng, tier):
@@ -238,6 +238,21 @@ class C14(Prop):
                 yield self.gen_arith(rng)
             else:
                 yield self.gen_join(rng)
+        # appended after the main stream (which is left as it was): the two forms that only the comparison with the
+        # model needs - a plain copy (mirror `DSV.copyDs`) and interp_axis with explicit left / right fills
+        for _ in range(n // 15):
+            if rng.random() < 0.5:
+                yield {"op": "copy", "ds": gen_dataset(rng, nans=rng.random() < 0.3)}
+            else:
+                dd = gen_dataset(rng, numeric=True, minn=2)
+                d = rng.choice(dd["dims"])
+                xs = sorted(Fraction(l[1], l[2]) for l in dd["axes"][d]["labels"])
+                pts = [xs[0] - 1, xs[-1] + 2, (xs[0] + xs[-1]) / 2, xs[0], xs[-1] + Fraction(1, 2), xs[0] - Fraction(1, 4)]
+                rng.shuffle(pts)
+                c = {"op": "interp_axis", "ds": dd, "dim": d, "labels": [gen.enc(p) for p in pts[:rng.randint(1, 6)]],
+                     "by": rng.choice(["name", "name", "pos", "neg"])}
+                c["left"], c["right"] = rng.choice([(-5.5, 7.25), (-5.5, None), (None, 7.25), (0.0, 0.0)])
+                yield c
 
     def gen_take(self, rng):
         dd = gen_dataset(rng)
@@ -528,7 +543,10 @@ class C14(Prop):
                 return (lambda: ds.reindex_axis(val(), axis=self.key_of(c, ds), **kw)), per_var(lambda v: v.reindex_axis(val(), axis=c["dim"], **kw)), True
             if op == "interp_axis":
                 lab = core.label_array(c["labels"], "f")
-                return (lambda: ds.interp_axis(lab, axis=self.key_of(c, ds))), per_var(lambda v: v.interp_axis(lab, axis=c["dim"])), True
+                fkw = {k: c[k] for k in ("left", "right") if c.get(k) is not None}
+                return (lambda: ds.interp_axis(lab, axis=self.key_of(c, ds), **fkw)), per_var(lambda v: v.interp_axis(lab, axis=c["dim"], **fkw)), True
+            if op == "copy":
+                return (lambda: ds.copy()), per_var(lambda v: v.copy()), True
             if op == "like":
                 other = self.build_template(c)
                 kw = {} if c.get("fill") is None else {"fill_value": c["fill"]}
@@ -662,7 +680,12 @@ class C14(Prop):
         t["tpl"] = arr
         return t
 
-    LEAN_OPS = ("take", "reduce", "take_axis", "sort_axis", "reindex_axis")
+    LEAN_OPS = ("take", "reduce", "take_axis", "sort_axis", "reindex_axis",
+                "interp_axis", "arith", "stack_ds", "concatenate_ds", "copy", "like")
+    # binary operators by the NumPy function `Dataset._binary_op` is called with (the operators the C04 plugin sends;
+    # `ds += x` is `ds = ds + x`: neither Dataset nor OpMixin defines the in-place methods)
+    UFUNCS = {"add": np.add, "sub": np.subtract, "mul": np.multiply, "truediv": np.true_divide,
+              "floordiv": np.floor_divide, "pow": np.power, "iadd": np.add, "isub": np.subtract, "imul": np.multiply}
 
     @staticmethod
     def unstable_sort(c):
@@ -681,26 +704,49 @@ class C14(Prop):
             return True
         if op == "reindex_axis" and (c.get("raise_error") or c.get("method")):
             return True
+        if op == "arith":
+            # `DSV.binaryOpDs` mirrors Dataset._binary_op: Dataset op Dataset, Dataset op scalar (also spelled `ds op= x`,
+            # and `3 + ds` / `3 * ds`, which OpMixin turns into `ds + 3` / `ds * 3`); the reflected operators that do
+            # not commute (Dataset._rbinary_op) and the unary minus (_unary_op) have no mirror
+            if c["how"] == "neg" or (c["how"] == "rscalar" and c["operator"] not in ("add", "mul")):
+                return True
+        if op == "like" and (c["fn"] != "reindex_like" or not (c.get("fill") is None or isinstance(c["fill"], float))):
+            # `DSV.reindexLikeDs` mirrors reindex_like with a float fill (NaN by default); interp_like has no mirror
+            return True
+        if op in ("stack_ds", "concatenate_ds") and c.get("align"):
+            # `DSV.stackDs` / `DSV.concatenateDs` mirror align=False
+            return True
         return False
 
-    def lean_vars(self, c):
-        """the Dataset's variables as arrays for the Lean side (cells of variable k are `src k i`)"""
-        dd = c["ds"]
-        toks = core.AttrTokens()
+    def lean_ds(self, dd, toks):
+        """a Dataset description as the driver reads it: keys, variables (cells of variable k are `src (off + k) i`),
+        metadata of the Dataset, of the variables and of the axes as opaque tokens"""
         arrs = []
         for key, v in dd["vars"].items():
-            arrs.append(core.lean_array({"axes": [gen.clean(dd["axes"][d]) for d in v["dims"]], "vkind": v["vkind"],
+            arrs.append(core.lean_array({"axes": [dd["axes"][d] for d in v["dims"]], "vkind": v["vkind"],
                                          "attrs_py": {"long_name": key}, "nan_at": v.get("nan_at", ())}, toks))
-        return list(dd["vars"]), arrs, toks
+        return {"keys": list(dd["vars"]), "arrays": arrs, "attrs": toks.enc(dd["attrs"])}
+
+    def operands(self, c):
+        """descriptions (and the `base` of their values) of all Datasets of the case, the operated one first"""
+        if c["op"] == "arith" and c["how"] in ("ds_ds", "ds_ds_other", "ds_ds_keys", "ds_ds_dims", "ids"):
+            return [(c["ds"], 0), (c.get("other") or c["ds"], 7)]
+        if c["op"] in ("stack_ds", "concatenate_ds"):
+            return [(d_, 10 * i) for i, d_ in enumerate(c.get("list") or [c["ds"]] * c["n"])]
+        return [(c["ds"], 0)]
 
     def request(self, c):
         op = c["op"]
         if self.unmodelled(c):
-            # interp / arithmetic / stack_ds / concatenate_ds and two-dimensional takes: decided by the commuting
-            # square on the implementation only
+            # forms without a mirror (see `unmodelled`): decided by the commuting square on the implementation only
             return dict(DUMMY)
-        keys, arrs, toks = self.lean_vars(c)
-        r = {"op": "ds_op", "keys": keys, "arrays": arrs, "dim": c["dim"], "fn": op, "attrs": toks.enc(c["ds"]["attrs"])}
+        toks = core.AttrTokens()
+        dss = [self.lean_ds(d_, toks) for d_, _ in self.operands(c)]
+        r = dict(dss[0], op="ds_op", dim=c.get("dim") or "", fn=op, others=dss[1:])
+        if op == "like":
+            # (a template Dataset / DimArray / Axes is read through its axes)
+            r["fn"] = c["fn"]
+            r["template"] = [core.lean_axis(a, None) for a in c["template"]]
         if op == "take":
             posmode = c["spelling"] in ("ix", "isel")
             r["ix"] = c["ix"]
@@ -714,7 +760,48 @@ class C14(Prop):
             if any(l[0] == "n" and l[2] != 1 for l in c["labels"]) and r["newkind"] == "i":
                 r["newkind"] = "f"
             r["fillkind"] = "f" if c.get("fill") is None or isinstance(c["fill"], float) else "i"
+        elif op == "interp_axis":
+            r["labels"] = c["labels"]
+            r["newkind"] = "f"
+        elif op == "arith":
+            r["operand"] = "ds" if len(dss) == 2 else "scalar"
+        elif op == "stack_ds":
+            r["stackaxis"] = "stk"
+            if c["keys"] is None and c.get("container") != "dict":
+                r["labels"], r["keykind"] = [["n", i, 1] for i in range(c["n"])], "i"
+            else:
+                r["labels"], r["keykind"] = [["s", "k%d" % i] for i in range(c["n"])], "O"
+        elif op == "concatenate_ds":
+            by = c.get("by", "name")
+            # (the position is taken in the first Dataset, as the implementation side of the case does)
+            r["axis"] = None if by == "default" else (["name", c["dim"]] if by == "name" else ["pos", ds_dims(c["ds"]).index(c["dim"])])
         return r
+
+    def cell_env(self, c):
+        """what the symbolic cells of the answer stand for"""
+        inputs = []
+        for d_, base in self.operands(c):
+            ds = build_dataset(d_, base=base)
+            inputs += [ds[k].values for k in d_["vars"]]
+        kw = {}
+        if c["op"] in ("reindex_axis", "like"):
+            kw["fill"] = np.nan if c.get("fill") is None else c["fill"]
+        elif c["op"] == "reduce":
+            from .c08 import expected_red
+            kw["red"] = expected_red(c["fn"], bool(c.get("skipna")))
+        elif c["op"] == "interp_axis":
+            kw["fill"] = np.nan if c.get("left") is None else c["left"]
+            kw["fill2"] = np.nan if c.get("right") is None else c["right"]
+        elif c["op"] == "arith":
+            ufunc = self.UFUNCS[c["operator"]]
+
+            def apply(x, y):
+                with np.errstate(all="ignore"):
+                    return ufunc(x, y)
+            kw["op"] = apply
+            if c["how"] in ("scalar", "iscalar", "rscalar"):
+                kw["rhs"] = np.asarray(2 if c["operator"] == "pow" else 3)
+        return core.CellEnv(inputs, **kw)
 
     def lean_vs_impl(self, c, io, ans):
         """correspondence: the Lean Dataset model against the Dataset implementation"""
@@ -732,13 +819,9 @@ class C14(Prop):
             return ["lean.keys"]
         if res["dims"] != lo["dims"]:
             bad.append("lean.dims")
-        ds = build_dataset(c["ds"])
-        fill = np.nan if c.get("fill") is None else c["fill"]
-        red = None
-        if c["op"] == "reduce":
-            from .c08 import expected_red
-            red = expected_red(c["fn"], bool(c.get("skipna")))
-        env = core.CellEnv([ds[k].values for k in c["ds"]["vars"]], fill=fill, red=red)
+        if sorted(map(tuple, TOKS.enc(res["attrs"]))) != sorted(map(tuple, lo["attrs"])):
+            bad.append("lean.attrs")           # the Dataset's metadata
+        env = self.cell_env(c)
         for k in res["keys"]:
             got = res["vars"][k]
             lv = core.lean_obs_to_canon(lo["vars"][k], env)
@@ -748,6 +831,18 @@ class C14(Prop):
                 bad.append("lean.var:%s:labels" % k)
             elif [rv(v) for v in got["values"]] != [rv(v) for v in lv["values"]]:
                 bad.append("lean.var:%s:values" % k)
+            else:
+                # the variable's metadata, the metadata of its axes (the mirrors model both)
+                if sorted(map(tuple, got["attrs"] or [])) != sorted(map(tuple, lv["attrs"])):
+                    bad.append("lean.var:%s:attrs" % k)
+                if [sorted(map(tuple, a["attrs"])) for a in got["axes"]] != [sorted(map(tuple, a["attrs"])) for a in lv["axes"]]:
+                    bad.append("lean.var:%s:axis_attrs" % k)
+                # dtype kinds: of the labels (non-empty axes), and of the values where the operation does not compute
+                # new ones (the result type of a NumPy reduction / ufunc is NumPy's business, not modelled)
+                if [a["kind"] for a in got["axes"] if a["labels"]] != [a["kind"] for a in lv["axes"] if a["labels"]]:
+                    bad.append("lean.var:%s:label_kind" % k)
+                if c["op"] not in ("reduce", "arith") and got["values"] and got["vkind"] != lv["vkind"]:
+                    bad.append("lean.var:%s:kind" % k)
         return bad
 
     @staticmethod
@@ -852,6 +947,7 @@ class C14(Prop):
             f["join.inputs"] = "differing" if c.get("list") and any(d_["axes"] != c["ds"]["axes"] for d_ in c["list"]) else "identical"
             f["join.options"] = "+".join(k for k in ("align", "sort") if c.get(k)) or "none"
             f["join.outcome"] = "%s:%s" % (f["join.inputs"], "err" if "err" in io else "ok")
+        f["lean_compared:" + c["op"]] = not self.unmodelled(c)
         if c["op"] == "arith" and c["how"] == "ds_ds_keys":
             f["arith.common_keys"] = len([k for k in c["ds"]["vars"] if k in c["other"]["vars"]])
         return f
